@@ -24,7 +24,7 @@ def run(c):
     if not c.quick:
         c.tlc_must_pass("SopCommitMC", "SopCommitMC3.cfg", workers=12, timeout=1800)
     btraces = []
-    g = _txncfg.gen(c, "a", MaxStores=2, MaxTxns=5, MaxOps=14, Keys=12)
+    g = _txncfg.gen(c, "a", MaxStores=2, MaxTxns=5, MaxOps=14, Keys=12, ClearL2=25, Neighbour=True)
     cfg = _txncfg.cfg(c, "seq", c.pick(40, 300), g, backend_out=os.path.join(c.scratch, "seq-backend.ndjson"))
     txnlib.run_driver(c, binp, "seq", cfg)
     btraces += [("seq/" + n, h, e) for n, h, e in conclib.load_backend(cfg["backend_out"])]
